@@ -1539,7 +1539,17 @@ impl Validator for SimpleValidator {
             );
         }
 
-        let seq = tx.input[0].sequence.0;
+        // the sequence that matters is the one of the input being signed
+        let seq = match tx.input.get(input) {
+            Some(txin) => txin.sequence.0,
+            None => transaction_format_err!(
+                self,
+                "policy-sweep-other",
+                "bad input index: {} >= {}",
+                input,
+                tx.input.len()
+            ),
+        };
         if seq != setup.counterparty_selected_contest_delay as u32 {
             transaction_format_err!(
                 self,
@@ -1633,7 +1643,17 @@ impl Validator for SimpleValidator {
             );
         };
 
-        let seq = tx.input[0].sequence.0;
+        // the sequence that matters is the one of the input being signed
+        let seq = match tx.input.get(input) {
+            Some(txin) => txin.sequence.0,
+            None => transaction_format_err!(
+                self,
+                "policy-sweep-other",
+                "bad input index: {} >= {}",
+                input,
+                tx.input.len()
+            ),
+        };
         let valid_seqs = if setup.is_anchors() {
             SimpleValidator::ANCHOR_SEQS.to_vec()
         } else {
@@ -1686,7 +1706,17 @@ impl Validator for SimpleValidator {
             );
         }
 
-        let seq = tx.input[0].sequence.0;
+        // the sequence that matters is the one of the input being signed
+        let seq = match tx.input.get(input) {
+            Some(txin) => txin.sequence.0,
+            None => transaction_format_err!(
+                self,
+                "policy-sweep-other",
+                "bad input index: {} >= {}",
+                input,
+                tx.input.len()
+            ),
+        };
         let valid_seqs = SimpleValidator::NON_ANCHOR_SEQS.to_vec();
         if !valid_seqs.contains(&seq) {
             transaction_format_err!(
